@@ -66,7 +66,12 @@ def run(ck):
         ck.coqchk(["Verif.Props.C07"])
 
     cases = J.run_harness(ck, "c07", n)
-    for c in cases:
+    for k, c in enumerate(cases):
+        if c["op"] == "hold":
+            ck.coverage["results_held_across_later_cases"] = ck.coverage.get("results_held_across_later_cases", 0) + (c["obs"].get("n") or 0)
+            if not J.crash_kind(c["obs"]):
+                J.hold_oracle(ck, cases, k)
+                continue
         trivial = c["op"] == "print" and c["in"] in ("6e756c6c",)
         if c["op"] == "gort":
             o = c["obs"]
